@@ -11,6 +11,10 @@
 //!   ls | mani | vmani | refs | verify
 //!   snap take ID | snap drop ID | snap show ID         hold / release a VersionRef (what readers do)
 //!   cur open ID LO HI | cur step ID PROG | cur close ID   a held range_scan cursor
+//!   select | perform IDX   the two halves of a compaction step (several may be selected before any
+//!                  is performed, as with several compaction threads)
+//!   hookperform IDX  the next perform runs pending compaction IDX entirely between the linking of
+//!                  its own outputs and its manifest edit
 //!   hookdrop ID    the next compaction drops snapshot ID between linking its outputs and applying
 //!                  its manifest edit (the step of a concurrent reader, placed deterministically)
 use std::collections::{BTreeMap, BTreeSet, HashMap, HashSet};
@@ -231,6 +235,11 @@ fn print_files(out: &mut impl Write, root: &str, kvs: &KeyValueStore, seen: &mut
 
 static SNAPS: Mutex<Option<HashMap<String, VersionRef<'static>>>> = Mutex::new(None);
 static HOOK_DROP: Mutex<Option<String>> = Mutex::new(None);
+/// compactions selected (`select`) and not yet performed, as several compaction threads have them
+static PENDING: Mutex<Vec<Option<lsmtk::VerifPending>>> = Mutex::new(Vec::new());
+/// index of a pending compaction to perform entirely at the next `compaction_finish:linked` point
+static HOOK_PERFORM: Mutex<Option<usize>> = Mutex::new(None);
+static HOOK_PERFORM_RESULT: Mutex<Option<String>> = Mutex::new(None);
 
 fn main() {
     let args: Vec<String> = std::env::args().collect();
@@ -282,12 +291,26 @@ fn main() {
         println!("THREAD memtable {msg}");
     });
     *SNAPS.lock().unwrap() = Some(HashMap::new());
-    lsmtk::verif_set_point_hook(Some(Box::new(|name: &'static str| {
+    lsmtk::verif_set_point_hook(Some(Box::new(move |name: &'static str| {
         if name == "compaction_finish:linked" {
             let id = HOOK_DROP.lock().unwrap().take();
             if let Some(id) = id {
                 let snap = SNAPS.lock().unwrap().as_mut().unwrap().remove(&id);
                 drop(snap);
+            }
+            // another compaction thread's whole perform phase runs here: after this compaction
+            // linked its outputs, before it takes the compaction mutex for its manifest edit
+            let idx = HOOK_PERFORM.lock().unwrap().take();
+            if let Some(idx) = idx {
+                let p = PENDING.lock().unwrap().get_mut(idx).and_then(|x| x.take());
+                let r = match p {
+                    None => "no-such-pending".to_string(),
+                    Some(p) => match kvs.verif_tree().verif_compaction_perform(p) {
+                        Ok(()) => "ok".to_string(),
+                        Err(e) => format!("err {}", err_class(&e)),
+                    },
+                };
+                *HOOK_PERFORM_RESULT.lock().unwrap() = Some(r);
             }
         }
     })));
@@ -374,6 +397,33 @@ fn main() {
                         },
                         _ => "BADOP snap".to_string(),
                     }
+                }
+                "select" => match kvs.verif_tree().verif_compaction_select() {
+                    None => "SELECT none".into(),
+                    Some((c, p)) => {
+                        let mut pend = PENDING.lock().unwrap();
+                        pend.push(Some(p));
+                        format!("SELECT {} {} {} {} {} {} {}", pend.len() - 1, c.lower_level, c.upper_level, hx0(&c.first_key), hx0(&c.last_key), c.size, c.inputs.join(","))
+                    }
+                },
+                "perform" => {
+                    let idx: usize = t[1].parse().unwrap();
+                    let p = PENDING.lock().unwrap().get_mut(idx).and_then(|x| x.take());
+                    let r = match p {
+                        None => "PERFORM err no-such-pending".to_string(),
+                        Some(p) => match kvs.verif_tree().verif_compaction_perform(p) {
+                            Ok(()) => "PERFORM ok".to_string(),
+                            Err(e) => format!("PERFORM err {}", err_class(&e)),
+                        },
+                    };
+                    match HOOK_PERFORM_RESULT.lock().unwrap().take() {
+                        Some(inner) => format!("{r} inner={}", inner.replace(' ', "_")),
+                        None => r,
+                    }
+                }
+                "hookperform" => {
+                    *HOOK_PERFORM.lock().unwrap() = t[1].parse().ok();
+                    "HOOKPERFORM armed".to_string()
                 }
                 "hookdrop" => {
                     *HOOK_DROP.lock().unwrap() = Some(t[1].to_string());
